@@ -219,6 +219,8 @@ func (n *Tree[V]) delNode(path string, matcher ValueMatcher[V], inStaticToken bo
 
 		if newSize == 0 {
 			n.backtrackingEnabled = true
+			// the names of the wildcards belong to the deleted routes
+			n.wildcardKeys = nil
 		}
 
 		return oldSize != newSize
